@@ -188,6 +188,11 @@ def run_intwp(u, ctx, ignore_contracts=()):
     except intwp.Unsupported as ex:
         u.status, u.note = 'undecided', 'intwp: unsupported construct: %s' % ex
         return
+    # slow queries are the unstable ones: an obligation left unknown (typically under machine load) is retried once,
+    # alone, with twice the time limit, before the unit is reported undecided
+    for o in r['obligations']:
+        if o.status == 'unknown':
+            intwp.discharge(o, u.timeout * 2)
     u.secs = time.time() - t0 + s1
     if not r['cover_ok']:
         u.status, u.note = 'undecided', 'vacuity guard: no return of %s reachable under its precondition (%s)' % (u.function, r['cover_status'])
